@@ -1,4 +1,6 @@
 pub mod common;
 pub mod c01;
 pub mod c02;
+pub mod c03;
+pub mod c04;
 pub mod simprops;
